@@ -26,13 +26,15 @@ def build(run):
     mframe.trxcon_names(run)
     mframe.sched_names(run)
     inc = [run.scratch, mframe.SHIM_TRXSCHED, mframe.SHIM_TRXCON, mframe.TRXCON_INC]
-    flags = SAN + ["-O0"]
+    flags = SAN + ["-O0"] + cbuild.CONSOLE_FLAGS
     objs = [
+        cbuild.console_sink(run),
         cbuild.obj(run, os.path.join(vf.REPO, TRX_SCHED_SRC), "c11_sched_trx", flags=flags, includes=inc, compiler="clang"),
         cbuild.obj(run, os.path.join(vf.REPO, mframe.TRXCON_DESC_C), "c11_sched_lchan_desc", flags=flags, includes=inc,
                    compiler="clang"),
         cbuild.obj(run, os.path.join(vf.ROOT, "harness/c/c11_sched_harness.c"), "c11_sched_harness",
-                   flags=flags + ['-DC11_SCHED_MFRAME_C="%s"' % os.path.join(vf.REPO, TRX_SRC)], includes=inc, compiler="clang"),
+                   flags=SAN + ["-O0", '-DC11_SCHED_MFRAME_C="%s"' % os.path.join(vf.REPO, TRX_SRC)], includes=inc,
+                   compiler="clang"),
     ]
     run.c11_sched = cbuild.link(run, objs, "c11_sched_harness.bin", flags=SAN + ["-Wl,--wrap=l1sched_mframe_layout"],
                                 compiler="clang")
@@ -357,12 +359,44 @@ def correspond(run, corr, tb):
     T, reqs, impl = real(run, tb)
     lines = [r for r, _ in reqs]
     model = vf.run_driver(lines)
-    corr.compare(lines, impl, model)
+    corr.compare(lines, impl, model, in_domain=lambda r: in_domain(T, r), model_ub=lambda b: b.startswith("crash:"))
     for (r, m), a in zip(reqs, impl):
         corr.count(r, "ts.seq %s%s" % (m["kind"], " crash:" + a.split(":")[1].split("@")[0] if a.startswith("crash:") else ""))
     pick = [k for k, (r, m) in enumerate(reqs) if m["kind"] in ("loss", "configure")][5:]
     for k in pick[:1] + pick[-1:]:
         corr.samples.append({"request": lines[k][:300], "impl": impl[k][:300], "model": model[k][:300]})
+
+
+# ----------------------------------------------------------------------------
+# domain of the property: timeslots 0..7, the combinations layouts[] has, logical channels of the enum,
+# frame numbers below the hyperframe
+
+def in_domain(T, req):
+    toks = req.split()
+    if not toks or toks[0] != "ts.seq":
+        return False
+    cfgs = {l["config"] for l in T.tc["layouts"]}
+    for op in toks[1:]:
+        p = op.split(",")
+        try:
+            a = [int(x) for x in p[1:]]
+        except ValueError:
+            return False
+        if p[0] == "rst":
+            continue
+        if not a or a[0] > 7:
+            return False
+        if p[0] == "cfg" and (len(a) != 2 or a[1] not in cfgs):
+            return False
+        if p[0] in ("act", "deact") and (len(a) != 2 or a[1] >= T.chan_max):
+            return False
+        if p[0] in ("rx", "tx", "probe") and (len(a) != 2 or a[1] >= H):
+            return False
+        if p[0] in ("rxn", "txn") and (len(a) != 3 or a[1] + a[2] > H):
+            return False
+        if p[0] == "setl" and (len(a) != 4 or a[2] >= H):
+            return False
+    return True
 
 
 # ----------------------------------------------------------------------------
@@ -373,9 +407,17 @@ def fn_after(a, b):
     return (b - a) % H
 
 
-def oracle(run, tb):
-    T, reqs, out = real(run, tb)
+def acts_of(T, lay, tn):
+    return act_all(tn, lay["lchan_mask"], T.chan_max)
+
+
+def judge(T, req, m, ans):
+    """witnesses (dicts) of the property failing on one request of kind configure / cycle / probe / loss;
+    every witness carries a minimal request that shows it again (`replay`)"""
     wit = []
+    kind = m["kind"]
+    if kind in ("history", "inject"):
+        return wit
 
     def cfgname(c):
         return T.pname.get(c, c)
@@ -383,113 +425,168 @@ def oracle(run, tb):
     def chname(c):
         return T.lname.get(c, c)
 
-    for (req, m), ans in zip(reqs, out):
-        kind = m["kind"]
-        if kind in ("history", "inject"):
-            continue
-        ops, crash, done = split_ops(ans)
-        c, tn = m["config"], m["tn"]
-        li, lay = T.first_layout(c, tn)
-        if lay is None or c == T.none:
-            continue                       # nothing is demanded of combinations that have no layout
-        rows = T.rows(lay)
-        P = lay["period"]
-        base = {"config": cfgname(c), "tn": tn, "layout_index": li, "layout_table": lay["frames"], "request": req[:400]}
-        if crash is not None and crash != "out-of-table":
-            # period 0 / NULL table of a real layout is the table defect the table oracle reports; other
-            # crashes are not what this property speaks about
-            if crash in ("period-zero", "null") and kind != "configure":
-                wit.append(dict(base, kind="consumer-lookup", site=kind, what="crash:%s in op %d" % (crash, done)))
-            continue
-        if kind == "configure":
-            if crash:
+    ops, crash, done = split_ops(ans)
+    c, tn = m["config"], m["tn"]
+    li, lay = T.first_layout(c, tn)
+    if lay is None or c == T.none or tn > 7:
+        return wit                     # nothing is demanded of combinations that have no layout
+    rows = T.rows(lay)
+    P = lay["period"]
+    acts = acts_of(T, lay, tn)
+    base = {"config": cfgname(c), "tn": tn, "layout_index": li, "layout_table": lay["frames"]}
+    rp_cfg = {"request": "ts.seq cfg,%d,%d dump,%d" % (tn, c, tn), "meta": {"kind": "configure", "config": c, "tn": tn, "nact": 0}}
+
+    def rp_fn(fn):
+        return {"request": "ts.seq cfg,%d,%d %s rxn,%d,%d,1 txn,%d,%d,1" % (tn, c, " ".join(acts), tn, fn, tn, fn),
+                "meta": {"kind": "cycle", "config": c, "tn": tn, "fn0": fn, "n": 1, "nact": len(acts)}}
+
+    if crash is not None and crash != "out-of-table":
+        # period 0 / NULL table of a real layout; other crashes are not what this property speaks about
+        if crash in ("period-zero", "null") and kind in ("cycle", "probe", "loss") and done >= 1 + m.get("nact", 0):
+            wit.append(dict(base, kind="consumer-lookup", site=kind, what="crash:%s in op %d" % (crash, done),
+                            replay={"request": req, "meta": m}))
+        return wit
+    if kind == "configure":
+        if crash:
+            return wit
+        rc, evs, st = ops[0].split(";")
+        ts = parse_ts(st)
+        if rc != "0" or ts is None or ts["layout"] is None or ts["lchans"] is None:
+            wit.append(dict(base, kind="chan-state", what="l1sched_configure_ts returned %s for a combination and timeslot "
+                            "that has a layout" % rc, channel=None, frame=None, replay=rp_cfg))
+            return wit
+        hi, hl = T.by_header(ts["layout"], tn)
+        if hl is None or hl["config"] != c or not (hl["slotmask"] >> tn) & 1:
+            return wit                 # a wrong layout is reported by the layout-lookup oracle
+        states = {l["type"] for l in ts["lchans"]}
+        seen = set()
+        for f, r in enumerate(T.rows(hl) or []):
+            if r is None:
                 continue
-            rc, evs, st = ops[0].split(";")
-            ts = parse_ts(st)
-            if rc != "0" or ts is None or ts["layout"] is None or ts["lchans"] is None:
-                wit.append(dict(base, kind="chan-state", what="l1sched_configure_ts returned %s for a combination and timeslot "
-                                "that has a layout" % rc, channel=None, frame=None))
-                continue
-            hi, hl = T.by_header(ts["layout"], tn)
-            if hl is None or hl["config"] != c or not (hl["slotmask"] >> tn) & 1:
-                continue                   # a wrong layout is reported by the layout-lookup oracle
-            states = {l["type"] for l in ts["lchans"]}
-            hrows = T.rows(hl) or []
-            seen = set()
-            for f, r in enumerate(hrows):
+            for d, ch in (("DL", r[0]), ("UL", r[2])):
+                if ch != T.idle and ch not in states and (d, ch) not in seen:
+                    seen.add((d, ch))
+                    wit.append(dict(base, kind="chan-state", layout_index=hi, layout_table=hl["frames"], dir=d, frame=f,
+                                    channel=chname(ch), channel_value=ch, lchan_mask=hl["lchan_mask"],
+                                    states=sorted(states), replay=rp_cfg,
+                                    what="frame uses a channel that got no channel state from l1sched_configure_ts"))
+        return wit
+    if rows is None or not P:
+        return wit
+    if kind == "cycle":
+        k0 = 1 + m["nact"]
+        if crash:
+            site = "rx" if done == k0 else ("tx" if done == k0 + 1 else "configure")
+            wit.append(dict(base, kind="consumer-lookup", site=site, fn=m["fn0"], n=m["n"], locate=(m["n"] > 1),
+                            what="a frame lookup left the table (for a frame number in fn .. fn+n-1)",
+                            replay={"request": req, "meta": m}))
+            return wit
+        for site, txt in (("rx", ops[k0]), ("tx", ops[k0 + 1])):
+            col = 0 if site == "rx" else 2
+            for k, t in enumerate(txt.split("+") if txt != "-" else []):
+                fn = m["fn0"] + k
+                if fn >= H:
+                    break                  # outside the frame numbers the property speaks about
+                rc, evs, bid = parse_burst(t)
+                r = rows[fn % P]
                 if r is None:
-                    continue
-                for d, ch in (("DL", r[0]), ("UL", r[2])):
-                    if ch != T.idle and ch not in states and (d, ch) not in seen:
-                        seen.add((d, ch))
-                        wit.append(dict(base, kind="chan-state", layout_index=hi, layout_table=hl["frames"], dir=d, frame=f,
-                                        channel=chname(ch), channel_value=ch, lchan_mask=hl["lchan_mask"],
-                                        states=sorted(states),
-                                        what="frame uses a channel that got no channel state from l1sched_configure_ts"))
-            continue
-        if rows is None or not P:
-            continue
-        if kind == "cycle":
-            k0 = 1 + m["nact"]
-            if crash:
-                site = "rx" if done == k0 else ("tx" if done == k0 + 1 else "configure")
-                wit.append(dict(base, kind="consumer-lookup", site=site, fn=m["fn0"], n=m["n"],
-                                what="a frame lookup left the table (somewhere in fn .. fn+n-1)"))
-                continue
-            for site, txt in (("rx", ops[k0]), ("tx", ops[k0 + 1])):
-                col = 0 if site == "rx" else 2
-                for k, t in enumerate(txt.split("+") if txt != "-" else []):
-                    fn = (m["fn0"] + k) % 2 ** 32
-                    rc, evs, bid = parse_burst(t)
-                    r = rows[fn % P]
-                    if r is None:
-                        wit.append(dict(base, kind="consumer-lookup", site=site, fn=fn, frame_mod_period=fn % P,
-                                        what="fn % period is not a row of the table"))
-                        break
-                    exp_ev = []
-                    has = T.has_rx(r[0]) if site == "rx" else T.has_tx(r[2])
-                    if has and (lay["lchan_mask"] >> r[col]) & 1:
-                        exp_ev = [("R" if site == "rx" else "T", r[col], tn, fn, r[col + 1])]
-                    got = [e for e in evs if e[3] == fn]     # the burst itself (substitutions have other fns)
-                    if bid != r[col + 1] or got != exp_ev:
-                        wit.append(dict(base, kind="consumer-lookup", site=site, fn=fn, frame_mod_period=fn % P,
-                                        layout_row="%s.%d/%s.%d" % (chname(r[0]), r[1], chname(r[2]), r[3]),
-                                        observed={"bid": bid, "handler_calls": got, "rc": rc},
-                                        what="the frame used is not frames[fn % period]"))
-                        break
-            continue
-        if kind == "probe":
-            if crash:
-                wit.append(dict(base, kind="consumer-lookup", site="probe", what="a frame lookup left the table"))
-            continue
-        if kind == "loss":
-            ch = m["chan"]
-            if crash:
-                j = (done - 2) // 5 if done >= 2 else 0
-                fn1, fn2 = m["cases"][min(j, len(m["cases"]) - 1)]
-                wit.append(dict(base, kind="subst", channel=chname(ch), channel_value=ch, last_proc=fn1, fn=fn2,
-                                elapsed=fn_after(fn1, fn2), period=P,
-                                what="a frame lookup of subst_frame_loss left the table"))
-                continue
-            for j, (fn1, fn2) in enumerate(m["cases"]):
-                o = ops[2 + 5 * j: 2 + 5 * j + 5]
-                rc2, evs2, bid2 = parse_burst(o[3])
-                el = fn_after(fn1, fn2)
-                subs = [e for e in evs2 if not (e[0] == "R" and e[3] == fn2)]
-                exp = []
-                for i in range(1, el if el < H // 2 else 0):
-                    f = (fn1 + i) % H
-                    r = rows[f % P]
-                    if r is not None and r[0] == ch:
-                        exp.append(("R", ch, tn, f, r[1]))
-                bad = None
-                if any(e not in exp for e in subs) or len(set(subs)) != len(subs):
-                    bad = "substituted a frame the layout does not give to the channel in the lost interval, or with another burst id"
-                elif 1 <= el <= P and subs != exp:
-                    bad = "did not substitute exactly the lost frames of the channel"
-                if bad:
-                    wit.append(dict(base, kind="subst", channel=chname(ch), channel_value=ch, last_proc=fn1, fn=fn2, elapsed=el,
-                                    period=P, substituted=[[e[3], e[4]] for e in subs][:12],
-                                    expected=[[e[3], e[4]] for e in exp][:12], what=bad))
+                    wit.append(dict(base, kind="consumer-lookup", site=site, fn=fn, frame_mod_period=fn % P,
+                                    what="fn % period is not a row of the table", replay=rp_fn(fn)))
                     break
+                exp_ev = []
+                has = T.has_rx(r[0]) if site == "rx" else T.has_tx(r[2])
+                if has and (lay["lchan_mask"] >> r[col]) & 1:
+                    exp_ev = [("R" if site == "rx" else "T", r[col], tn, fn, r[col + 1])]
+                got = [e for e in evs if e[3] == fn]     # the burst itself (substitutions have other fns)
+                if bid != r[col + 1] or got != exp_ev:
+                    wit.append(dict(base, kind="consumer-lookup", site=site, fn=fn, frame_mod_period=fn % P,
+                                    layout_row="%s.%d/%s.%d" % (chname(r[0]), r[1], chname(r[2]), r[3]),
+                                    observed={"bid": bid, "handler_calls": got, "rc": rc},
+                                    what="the frame used is not frames[fn % period]", replay=rp_fn(fn)))
+                    break
+        return wit
+    if kind == "probe":
+        if crash:
+            wit.append(dict(base, kind="consumer-lookup", site="probe", what="a frame lookup left the table",
+                            replay={"request": req, "meta": m}))
+        return wit
+    if kind == "loss":
+        ch = m["chan"]
+
+        def rp_loss(fn1, fn2):
+            return {"request": "ts.seq cfg,%d,%d act,%d,%d deact,%d,%d act,%d,%d rx,%d,%d rx,%d,%d dump,%d"
+                               % (tn, c, tn, ch, tn, ch, tn, ch, tn, fn1, tn, fn2, tn),
+                    "meta": {"kind": "loss", "config": c, "tn": tn, "chan": ch, "cases": [[fn1, fn2]]}}
+
+        if crash:
+            j = (done - 2) // 5 if done >= 2 else 0
+            fn1, fn2 = m["cases"][min(j, len(m["cases"]) - 1)]
+            wit.append(dict(base, kind="subst", channel=chname(ch), channel_value=ch, last_proc=fn1, fn=fn2,
+                            elapsed=fn_after(fn1, fn2), period=P, replay=rp_loss(fn1, fn2),
+                            what="a frame lookup of subst_frame_loss left the table"))
+            return wit
+        for j, (fn1, fn2) in enumerate(m["cases"]):
+            o = ops[2 + 5 * j: 2 + 5 * j + 5]
+            rc2, evs2, bid2 = parse_burst(o[3])
+            el = fn_after(fn1, fn2)
+            subs = [e for e in evs2 if not (e[0] == "R" and e[3] == fn2)]
+            exp = []
+            for i in range(1, el if el < H // 2 else 0):
+                f = (fn1 + i) % H
+                r = rows[f % P]
+                if r is not None and r[0] == ch:
+                    exp.append(("R", ch, tn, f, r[1]))
+            bad = None
+            if any(e not in exp for e in subs) or len(set(subs)) != len(subs):
+                bad = "substituted a frame the layout does not give to the channel in the lost interval, or with another burst id"
+            elif 1 <= el <= P and subs != exp:
+                bad = "did not substitute exactly the lost frames of the channel"
+            if bad:
+                wit.append(dict(base, kind="subst", channel=chname(ch), channel_value=ch, last_proc=fn1, fn=fn2, elapsed=el,
+                                period=P, substituted=[[e[3], e[4]] for e in subs][:12],
+                                expected=[[e[3], e[4]] for e in exp][:12], what=bad, replay=rp_loss(fn1, fn2)))
+                break
     return wit
+
+
+def locate(run, T, w):
+    """a crash somewhere in a range of frame numbers: find the first frame number that shows it alone"""
+    m = w["replay"]["meta"]
+    c, tn = m["config"], m["tn"]
+    li, lay = T.first_layout(c, tn)
+    acts = acts_of(T, lay, tn)
+    reqs = []
+    for fn in range(m["fn0"], m["fn0"] + m["n"]):
+        reqs.append(("ts.seq cfg,%d,%d %s rxn,%d,%d,1 txn,%d,%d,1" % (tn, c, " ".join(acts), tn, fn, tn, fn),
+                     {"kind": "cycle", "config": c, "tn": tn, "fn0": fn, "n": 1, "nact": len(acts)}))
+    out = vf.run_lines([build(run)], [r for r, _ in reqs])
+    for (r, mm), a in zip(reqs, out):
+        ww = judge(T, r, mm, a)
+        if ww:
+            return ww[0]
+    return w
+
+
+def oracle(run, tb):
+    T, reqs, out = real(run, tb)
+    wit = []
+    for (req, m), ans in zip(reqs, out):
+        for w in judge(T, req, m, ans):
+            if w.pop("locate", False) and len([x for x in wit if x.get("kind") == "consumer-lookup"]) < 3:
+                w = locate(run, T, w)
+                w.pop("locate", None)
+            wit.append(w)
+    return wit
+
+
+def replay_witness(run, tb, w):
+    """re-run the minimal request of a recorded witness against the current tree; the witnesses it shows now"""
+    T = Tables(tb)
+    rp = w.get("replay") or {}
+    if "request" not in rp:
+        return None
+    m = rp["meta"]
+    if "cases" in m:
+        m = dict(m, cases=[tuple(x) for x in m["cases"]])
+    ans = vf.run_lines([build(run)], [rp["request"]])[0]
+    return judge(T, rp["request"], m, ans)
